@@ -56,6 +56,8 @@ class ExplodeColorLayerGlyphsFilter(BaseFilter):
         layerGlyph.unicodes = []
         glyphSet[layerGlyphName] = layerGlyph
         self.context.colorLayerGlyphNames.add(layerGlyphName)
+        # report the glyphs we add, not only the base glyph they belong to
+        self.context.modified.add(layerGlyphName)
         return layerGlyphName
 
     def filter(self, glyph):
